@@ -175,7 +175,7 @@ class TreeSim(taps.Sim):
         self.cfg = plan["cfg"]
         self.feed = feedmod.Feed(plan["feed"])
         self.judge = judge  # set of property ids whose oracles are evaluated
-        model = Model(trees.model_spec(plan["tree"]), self.feed, commod.make(self.cfg["comm"]))
+        model = Model(trees.model_spec(plan["tree"]), self.feed, commod.make(self.cfg.get("comm") or {"kind": "zero"}))
         taps.Sim.__init__(self, bt, model)
         self.in_batch = False
         self.fired = dict(plan.get("fired", {}))
@@ -257,7 +257,7 @@ class TreeSim(taps.Sim):
         c = cost(q)
         flags["q_is_minus_pos"] = bool(q == -pos0 and abs(pos0) >= TOL)
         flags["q_zero"] = bool(q == 0)
-        flags["comm"] = self.cfg["comm"]["kind"]
+        flags["comm"] = (self.cfg.get("comm") or {"kind": "zero"})["kind"]
         flags["amount_lt_unit"] = bool(abs(amount) < abs(unit))
         flags["wrong_way"] = bool(q * amount < 0)
         flags["fee_at_zero"] = bool(comm(0.0, price * mult) > 0)
@@ -390,6 +390,29 @@ class TreeSim(taps.Sim):
                     worst = worst or "either"
         return worst
 
+    def paper_open_nan(self):
+        """does some paper-trading copy of a sub-strategy hold a security whose current feed price is NaN?
+        (paper copies trade a fixed notional even when the live child holds nothing)"""
+        t = self.model.t
+
+        def walk(strat):
+            for c in strat.children.values():
+                if hasattr(c, "capital"):
+                    p = getattr(c, "_paper", None)
+                    if p is not None:
+                        for n in p.members:
+                            if not hasattr(n, "capital") and abs(n.position) >= TOL:
+                                fp = self.feed.price(t, n.name)
+                                if fp != fp:
+                                    return True
+                        if walk(p):
+                            return True
+                    if walk(c):
+                        return True
+            return False
+
+        return walk(self.root)
+
     def touched(self, n):
         """has anything ever moved through this strategy today (so that float residue is possible)?"""
         if n.cash != 0.0 or n.flows_today != 0.0 or n.last_value != 0.0 or n.fees_today != 0.0:
@@ -422,7 +445,13 @@ class TreeSim(taps.Sim):
             if any(msg.startswith(s) for s in SIZING_STEMS):
                 self.c10("sizing_exception", "%s: %s" % (what, msg[:120]), {"exc": "sizing", "stem": msg[:30]})
                 raise Stop("sizing_exception")
-            if "latest price is NaN" in msg and m.open_nan():
+            if msg.startswith("Cannot allocate capital to "):
+                name = msg[len("Cannot allocate capital to "):].split(" because")[0]
+                p = self.feed.price(m.t, name)
+                if p != p or abs(p) < TOL:
+                    self.fire("refused_trade_bad_price")
+                    raise Stop("trade_at_bad_price")
+            if "latest price is NaN" in msg and (m.open_nan() or self.paper_open_nan()):
                 self.fire("open_nan_raise")
                 raise Stop("open_nan")
             if "latest coupon is NaN" in msg and m.open_nan_coupon():
